@@ -308,7 +308,7 @@ def handle_failure_truth(ctx: Ctx):
                          'something other than the task\'s own exception')
 
 
-@rule('C10.GUARDED-SUBSCRIPT', ['C10'], min_instances=4)
+@rule('C10.GUARDED-SUBSCRIPT', ['C10'], min_instances=2)
 def guarded_subscript(ctx: Ctx):
     """Partial maps (filled only on success: the coordinator's result dict and every runner's results_map)
     may be subscripted only under a membership guard, on the success path for the same task, or inside
@@ -566,3 +566,35 @@ def queue_in_thread(ctx: Ctx):
             ok = bool(ths) and not direct and joined
         yield ctx.ob('C14.QUEUE-IN-THREAD', ok, fn, c, 'result queue consumed only inside a joined helper thread', '' if ok else
                      'the result queue is consumed on the calling thread: a KeyboardInterrupt between taking a result and completing its future loses it')
+
+
+PSUTIL_INSPECT = {'oneshot', 'create_time', 'num_threads', 'cpu_percent', 'memory_percent', 'children', 'memory_info', 'status', 'cpu_times'}
+
+
+@rule('C10.MONITOR-DEAD-SAFE', ['C10', 'C11'], min_instances=3)
+def monitor_dead_safe(ctx: Ctx):
+    """Inspecting a task process that may already be dead (psutil.Process(pid), process.cpu_percent(), ...)
+    on the calling thread is always covered by a handler for psutil.NoSuchProcess: a task that dies must
+    not make run_tasks raise."""
+    run = ctx.P.func('lab.TaskCoordinator.run')
+    calling = ctx.P.closure([run], include_nested=False)
+    for fn in calling:
+        for call in calls_in(fn.node):
+            d = dotted(call.func)
+            r = ctx.P.resolve_dotted(fn.module, d) if d and not ctx.P._is_local_name(d.split('.')[0], fn) else None
+            is_ctor = r == 'psutil.Process' and (call.args or call.keywords)
+            is_inspect = isinstance(call.func, ast.Attribute) and call.func.attr in PSUTIL_INSPECT \
+                and isinstance(call.func.value, ast.Name) and call.func.value.id in ('process', 'child', 'proc', 'p')
+            if not (is_ctor or is_inspect):
+                continue
+            covered = False
+            for t in [t for t in walk_local(fn.node) if isinstance(t, ast.Try)]:
+                if any(x is call for b in t.body for x in ast.walk(b)):
+                    for h in t.handlers:
+                        names = [] if h.type is None else [(dotted(e) or '').split('.')[-1]
+                                                           for e in (h.type.elts if isinstance(h.type, ast.Tuple) else [h.type])]
+                        if h.type is None or set(names) & {'NoSuchProcess', 'Error', 'Exception', 'BaseException'}:
+                            covered = True
+            yield ctx.ob('C10.MONITOR-DEAD-SAFE', covered, fn, call, f'{src(call.func)} covered by a NoSuchProcess handler',
+                         '' if covered else f'`{src(call)[:60]}` inspects a task process that may already have died (and been reaped) without '
+                         'handling psutil.NoSuchProcess: the exception escapes the monitor update and run_tasks raises although only a task died')
